@@ -5,7 +5,7 @@
 From Coq Require Import List NArith ZArith Lia Bool Arith.
 From TarsV Require Import Gen.Consts Base.Hex Codec.Wire Codec.Skip Codec.Prim Codec.GenCodec Codec.Corr
   Codec.RoundTrip Codec.RoundTripProofs Codec.NormProofs Codec.CanonProofs Codec.Damage Codec.DamageProofs
-  Codec.RoundTripExamples Gen.Schemas.
+  Codec.TypedProofs Codec.RoundTripExamples Gen.Schemas.
 Import ListNotations.
 Open Scope N_scope.
 
@@ -90,3 +90,22 @@ Qed.
 Example shape1_tail :
   let bs := encode shapes 0 (VStruct shape1) in skipn (length bs - 4) bs = [253; 200; 0; 12].
 Proof. vm_compute. reflexivity. Qed.
+
+(* C06/C03 on the code's schemas: fixed arrays have a positive length the format can express; whatever the bytes, a
+   returned value is a value of the struct type; re-encoding is the identity exactly on the encoder's images *)
+Theorem env0_arrs_ok : arrs_ok env0.
+Proof. apply arrs_ok_b_sound. vm_compute. reflexivity. Qed.
+Theorem env0_decode_typed : forall sid prior bs v r, fits_model sid = true -> bytes_ok bs -> lenok bs ->
+  decode_into env0 sid prior bs = DOk v r -> has_type env0 (TStruct sid) v /\ sfx r bs.
+Proof.
+  intros sid prior bs v r Hm Hbs Hl E. destruct (fits_model_spec sid Hm) as [Hfin Hn].
+  apply (decode_typed env0 8 env0_wf_schema env0_defaults_typed env0_arrs_ok 8 sid prior bs v r); try assumption; lia.
+Qed.
+Theorem env0_reencode_exact : forall sid bs v, fits_model sid = true -> bytes_ok bs -> lenok bs ->
+  decode env0 sid bs = DOk v [] ->
+  (encode env0 sid v = bs <-> exists vs, has_type env0 (TStruct sid) (VStruct vs) /\ bs = encode env0 sid (VStruct vs)).
+Proof.
+  intros sid bs v Hm Hbs Hl E. destruct (fits_model_spec sid Hm) as [Hfin Hn].
+  apply (reencode_exact env0 8 8 sid bs v); try assumption; try lia;
+    [apply env0_wf_schema|apply env0_defaults_typed|apply env0_arrs_ok].
+Qed.
